@@ -53,6 +53,24 @@ func vfRunCase(t *testing.T, c *vfc20.Case) *vfc20.Run {
 			tg.BadRestore[string(vfutil.UnHex(b))] = true
 		}
 		res.Snapshot(tg, c, res.Before)
+		if c.Cut > 0 {
+			// the first attempt: a replayer of its own replays the first Cut entries and is gone
+			first := c.Prepare()
+			cli0 := conn.VerifNewRedisConn(tg.Dial(), config.RedisConfig{})
+			pol0, _ := c.RealPol()
+			rr0 := &RdbReplay{Client: cli0, RedisVersion: c.Ver, EnableRestore: c.Restore, MaxProtoBulkLen: c.MaxBulk,
+				KeyExists: pol0, KeyExistsLog: c.Log, ReplaceHashTag: c.HashTag}
+			for i, e := range first.Bins {
+				if i >= c.Cut || rr0.Replay(e) != nil {
+					break
+				}
+			}
+			cli0.Close()
+			synctest.Wait()
+			res.Orig = res.Before
+			res.Before = map[vfc20.DK]*vfdoubles.Val{}
+			res.Snapshot(tg, c, res.Before) // what the restart finds
+		}
 		nSeed := tg.LogLen()
 		rc := config.RedisConfig{}
 		cli := conn.VerifNewRedisConn(tg.Dial(), rc)
@@ -157,6 +175,16 @@ func TestVerifC20(t *testing.T) {
 			s.Violate("generator-rdb-rejected", r.LoadErr.Error(), c.Replay())
 			return
 		}
+		if c.Cut > 0 {
+			found := r.Before
+			r.Before = r.Orig // the model's answer lines speak about the original target
+			vfc20.Emit(s, idx, c, r)
+			idx++
+			r.Before = found
+			vfc20.CheckRerun(s, c, r, r.Orig)
+			vfc20.Stats(s, c, r, src)
+			return
+		}
 		vfc20.Emit(s, idx, c, r)
 		idx++
 		if r.BinKeyChanged != "" {
@@ -202,6 +230,9 @@ func TestVerifC20(t *testing.T) {
 	}
 	for _, c := range vfc20.ExhaustiveBig("plain") {
 		run(c, "exhaustive-big")
+	}
+	for _, c := range vfc20.ExhaustiveRerun("plain") {
+		run(c, "exhaustive-rerun")
 	}
 	for _, c := range vfc20.ExhaustivePolicyStrings("plain") {
 		run(c, "exhaustive-policy-strings")
